@@ -508,7 +508,7 @@ func (propC16) Check(c *Case) (*Violation, *RunInfo) {
 			hist := Exec(rec, newEnv(sim))
 			ri.Steps += sim.Steps
 			if !nf {
-				frozen = ExecSpec{Mode: "replay", Perms: sim.Log}
+				frozen = frozenSpec(sim)
 				if len(sim.Log) > 0 {
 					nonIdent = true
 				}
